@@ -389,7 +389,7 @@ theorem dirac_cdf_above_max (d : Dirac ℝ) {x : ℝ} (hx : d.f_0 ≤ x) : Dirac
 
 /-! ### Branch-logic facts for every carrier α (hence also for IEEE `Float`)
 
-The hypothesis is the literal guard of the generated code, so no order axioms on α are needed. -/
+The hypothesis is the literal guard of the generated code, so no order laws on α are needed. -/
 section AllCarriers
 variable {α : Type} [Add α] [Sub α] [Mul α] [Div α] [Neg α] [LT α] [LE α] [BEq α]
   [DecidableLT α] [DecidableLE α] [OfScientific α] [Inhabited α] [RFun α]
